@@ -427,8 +427,8 @@ CHECK = Check(
 )
 
 MANIFEST = {
-    "level_text": "Machine-checked Lean 4 theorems about executable models of quote_plus/urlencode/unquote/parse_qsl (safe set regenerated from werkzeug.urls._urlencode by AST), of parse_options_header and of MultipartEncoder/MultipartDecoder: percent-encoding round trips for every byte string, parse_qsl(urlencode(items)) = items for every list of Unicode pairs, Content-Disposition name/filename come back exactly, and decode(encode(parts)) = parts for every boundary and every list of valid parts (single-shot decode; per-part payload phase for every chunking); models tied to the code by differential streams, the encode->parse oracle runs on the real encoder, test client and parsers.",
-    "level_note": "Trusted: Lean kernel; extract.py; harness; CPython urllib/codecs for modelled primitives. decode_encode over every chunking of the whole body is OPEN (it needs C01's decode_chunk_independent) and is covered by the correspondence + oracle streams. Known finding F02a.",
+    "level_text": "Machine-checked Lean 4 theorems about executable models of quote_plus/urlencode/unquote/parse_qsl (safe set regenerated from werkzeug.urls._urlencode by AST), of parse_options_header and of MultipartEncoder/MultipartDecoder: percent-encoding round trips for every byte string, parse_qsl(urlencode(items)) = items for every list of Unicode pairs, Content-Disposition name/filename come back exactly, and decode(encode(parts)) = parts for every boundary, every list of valid parts and every chunking of the encoded body; models tied to the code by differential streams, the encode->parse oracle runs on the real encoder, test client and parsers.",
+    "level_note": "Trusted: Lean kernel; extract.py; harness; CPython urllib/codecs for modelled primitives. FileStorage / charset / test-client layers above the decoder are covered by the correspondence + oracle streams. Known finding F02a (encoder, empty first Data chunk).",
     "technique": "Lean 4 proof (induction over byte lists / item lists, decide over generated tables) + model/code correspondence",
     "design_ref": "DESIGN.md section 4, C02",
 }
